@@ -144,8 +144,9 @@ theorem C07_fuel_adequate (text : Text) (g : Nat) (h : text.length ≤ g) :
     (`PydapModel/DdsForeign.lean`: keywords and type names in any letter case, `Url`/`Int`/`UInt` or any
     other spelling the parser table knows, every dimension anonymous `[n]` or named `[d = n]`, arbitrary
     whitespace — spaces, tabs, newlines, none — between tokens except after a variable name, and names spelled RAW:
-    any non-empty ASCII text without `;` and `[` that does not start with white space — `a.b c`, `u&v`, `my ds` — not
-    only names already made of `name_regexp` characters) parses to exactly the structure it declares (`declDs`:
+    any non-empty ASCII text without `;`, `[` and `/` that does not start with white space — `a.b c`, `u&v`, `my ds` —
+    not only names already made of `name_regexp` characters; a name starting with `dap4` only when its first 8
+    characters are `name_regexp` characters) parses to exactly the structure it declares (`declDs`:
     same kinds and order; every name quoted as pydap carries names (`_quote`, the identity on `name_regexp` names);
     parser dtype of the declared type; declared extents; the names of the named dimensions).
     Hypotheses (`FWFds`): keywords spell their word in some letter case; type words are keys of the parser's table and
@@ -178,14 +179,13 @@ theorem C07_tree_order (d : Dataset) (s : Text) (hwf : WFds d) (hp : printDs d =
   ⟨normDs d, parse_print d s hp hwf, normDs_skel d⟩
 
 /-- A foreign-style DDS read by pydap and written again.  The dataset `d₁` parsed from any text of the foreign printer
-    whose quoted names are `name_regexp` names (`FQuotedDs`: true of every raw ASCII name without `/`, `C07_quoted_names`)
-    prints (every dtype of the parser's table is one the printer knows), and that DDS `s` is a reference text in the
+    (raw names included: they are quoted into `name_regexp`, `RawNameOk.quoted`) prints (every dtype of the parser's table is one the printer knows), and that DDS `s` is a reference text in the
     sense of the first half of the property: it parses to a dataset `d₂` with the skeleton the foreign text
     declared (kinds, names, order of members and of a Grid's maps as DECLARED), and `d₂` prints `s` again exactly. -/
-theorem C07_foreign_reprint (d : FDataset) (hwf : FWFds d) (hq : FQuotedDs d) :
+theorem C07_foreign_reprint (d : FDataset) (hwf : FWFds d) :
     ∃ d₁ s, parseDds (ftextDs d) = .ok d₁ ∧ printDs d₁ = .ok s ∧
       ∃ d₂, parseDds s = .ok d₂ ∧ skelDs d₂ = skelDs (declDs d) ∧ printDs d₂ = .ok s := by
-  obtain ⟨hw, hpr⟩ := declDs_wf d hwf hq
+  obtain ⟨hw, hpr⟩ := declDs_wf d hwf
   obtain ⟨s, hs⟩ := printDs_ok (declDs d) hpr
   exact ⟨declDs d, s, foreign_parse d hwf, hs, normDs (declDs d), parse_print _ s hs hw, normDs_skel _,
     by rw [printDs_norm, hs]⟩
@@ -310,14 +310,8 @@ example : skelDs permGridWitness ≠
   simp [skelDs, skelL, skelT, permGridWitness]
 
 -- `C07_foreign_reprint`: the foreign sample is in its domain
-example : FQuotedDs fsample := by
-  simp only [FQuotedDs, fsample, FQuotedL, FQuotedT, FQuotedB, NameOk]
-  decide
-
 example : ∃ d₁ s, parseDds (ftextDs fsample) = .ok d₁ ∧ printDs d₁ = .ok s :=
-  let ⟨d₁, s, h1, h2, _⟩ := C07_foreign_reprint fsample fsample_wf (by
-    simp only [FQuotedDs, fsample, FQuotedL, FQuotedT, FQuotedB, NameOk]
-    decide)
+  let ⟨d₁, s, h1, h2, _⟩ := C07_foreign_reprint fsample fsample_wf
   ⟨d₁, s, h1, h2⟩
 
 -- raw names that need quoting (`my ds`, `a.b c`, `s t`, `u&v`) are in the domain of `C07_foreign` and
@@ -329,9 +323,9 @@ example : parseDds (ftextDs fsampleRaw) = .ok ⟨"my%20ds".toList,
        .struct "s%20t".toList [.base ⟨"u%26v".toList, "B".toList, [], [], true⟩]]⟩ := by
   rw [C07_foreign fsampleRaw fsampleRaw_wf, fsampleRaw_decl]
 
-example : FQuotedDs fsampleRaw := by
-  simp only [FQuotedDs, fsampleRaw, FQuotedL, FQuotedT, FQuotedB, NameOk]
-  decide
+example : ∃ d₁ s, parseDds (ftextDs fsampleRaw) = .ok d₁ ∧ printDs d₁ = .ok s :=
+  let ⟨d₁, s, h1, h2, _⟩ := C07_foreign_reprint fsampleRaw fsampleRaw_wf
+  ⟨d₁, s, h1, h2⟩
 
 /-! ### the tie by translation: the *source text* of every line the DDS printer yields is the model's text
 
